@@ -342,7 +342,10 @@ def check_memo_keys(ctx, fi, rule='R-MEMO/key-complete'):
             if (isinstance(v, ast.Dict) and not v.keys) or (
                     isinstance(v, ast.Call) and isinstance(
                         v.func, ast.Name) and v.func.id == 'dict'
-                    and not v.args and not v.keywords):
+                    and not v.args and not v.keywords) or isinstance(
+                        v, ast.DictComp):
+                # (a table of per-key sub-tables built by a comprehension
+                # is a fresh table as well)
                 creations.setdefault(st.targets[0].id, []).append(st)
     params = {a.arg for a in fi.node.args.posonlyargs + fi.node.args.args
               + fi.node.args.kwonlyargs} - {'self', 'cls'}
